@@ -85,14 +85,25 @@ def gen_case(rng, tier, i):
     if tkind == "bigint" and entry == "notify":
         tkind = "int"       # the data-event entry point converts time stamps to float by design; exact huge ints only via register()
     ops = []
-    t = rng.choice([0, 0, 5, 100]) if tkind != "float" else rng.choice([0.0, 2.5, 1000.0])
+    t = rng.choice([0, 0, 5, 100, -3]) if tkind != "float" else rng.choice([0.0, 2.5, 1000.0, -0.7, -2.3, -10.1, -0.1, 2.0 ** 30, 2.0 ** 30, 1.7e9])   # clocks may start below zero, or at an epoch time (sub-second gaps are then < 1e-9 relative)
     if tkind == "bigint":
         t = rng.choice([2 ** 53, 17 * 10 ** 17, 2 ** 60 + 1])      # e.g. nanosecond epoch clocks: exact ints beyond 2**53
     for rep in range(rng.choice([1, 1, 2])):
         n = rng.choice([0, 1, 2, 3, 6, 12, 40])
-        for _ in range(n):
-            step = rng.choice([0, 0, 1, 2, 0.5, rng.uniform(0, 5)]) if tkind not in ("int", "bigint") else rng.choice([0, 0, 1, 1, 2, 7])
-            t = t + step
+        # time stamps that were not computed from each other (read from a log, a schedule): for those `last + (t - last)`
+        # need not give `t` back, e.g. across zero
+        grid = None
+        if tkind == "float" and rng.random() < 0.35:
+            grid = sorted(rng.choice([-0.1 * rng.randint(1, 40), 0.07 * rng.randint(1, 40), 0.0, 1e-3 * rng.randint(-99, 99)]) for _ in range(n))
+            grid = [g for g in grid if g >= t] if rep else grid
+            n = len(grid)
+        for k_ in range(n):
+            step = rng.choice([0, 0, 1, 2, 0.5, 0.1, 0.3, rng.uniform(0, 5)]) if tkind not in ("int", "bigint") else rng.choice([0, 0, 1, 1, 2, 7])
+            if grid is not None:
+                t = grid[k_] if (k_ == 0 or rng.random() < 0.7) else t      # (30% repeats of the previous time stamp)
+                t = max(t, grid[k_ - 1]) if k_ else t
+            else:
+                t = t + step
             r = rng.random()
             if r < 0.06:
                 ops.append(["earlier", t - rng.choice([1, 0.25, 1e-9 * max(1.0, abs(t)) * 4 + 1e-6]), _value(rng, klass)])
